@@ -173,6 +173,10 @@ class GeminiClient:
         # Parse URL to get host and port
         parsed = parse_url(url)
 
+        # The normalized URL is what goes on the wire; normalization can
+        # lengthen it (an empty path becomes "/"), so it must fit as well
+        validate_url(parsed.normalized)
+
         # Get event loop
         loop = asyncio.get_running_loop()
 
